@@ -240,6 +240,11 @@ impl ScanStdin {
     } else {
       return Err(anyhow::anyhow!(EC::RuleNotSpecified));
     };
+    // a rule with `severity: off` is not applied, like in the file scan
+    let rules = rules
+      .into_iter()
+      .filter(|r| !matches!(r.severity, Severity::Off))
+      .collect();
     Ok(Self {
       rules,
       error_count: AtomicUsize::new(0),
